@@ -833,8 +833,11 @@ func ruleSenderPairing(c *Ctx) {
 				}
 				n := st{su, x.sent, x.notLast}
 				if iff, ok := last.(*ssa.If); ok {
-					if cond, pos := ifCond(iff, si == 0); isNotLast(cond, pos) {
-						n.notLast = true
+					cond, pos := ifCond(iff, si == 0)
+					for _, ic := range impliedConds(cond, pos, 3) {
+						if isNotLast(ic.v, ic.pos) {
+							n.notLast = true
+						}
 					}
 				}
 				if su == hdr {
@@ -873,7 +876,8 @@ func ruleSenderPairing(c *Ctx) {
 			if !ok {
 				return false
 			}
-			for _, e := range phi.Edges {
+			// (the advanced value may come round through the φ of a post statement that `continue` also jumps to)
+			for _, e := range valueAlternatives(phi, 3) {
 				if bo, ok := e.(*ssa.BinOp); ok && bo.Op == token.ADD && (bo.X == ssa.Value(phi) && lenOf(anyVal)(bo.Y) || bo.Y == ssa.Value(phi) && lenOf(anyVal)(bo.X)) {
 					return true
 				}
